@@ -53,7 +53,7 @@ def imported_keys(u):
         if it.mode == "stub" and it.proved_in:
             for d in ([it.proved_in] if isinstance(it.proved_in, str) else it.proved_in):
                 for fn in it.fns:
-                    res.append((d, it.file, it.header, fn.name))
+                    res.append((d, it.header, fn.name))
     return res
 
 
@@ -170,7 +170,7 @@ def main():
         for mod, mm in r.meta["modules"].items():
             if mm["mode"] == "lost":
                 for fm in mm["fns"]:
-                    if (pid in fm.get("props", []) and n in primary) or (n, mm["file"], mm["header"], fm["fn"]) in needed_imports:
+                    if (pid in fm.get("props", []) and n in primary) or (n, mm["header"], fm["fn"]) in needed_imports:
                         wanted.append((n, mod, mm, fm, dict(status="undecided", errors=[dict(kind="other", title=mm.get("error", "lost anchor"), text="", lines=[], cover=False)])))
                 continue
             if mm["mode"] != "verify":
@@ -179,7 +179,7 @@ def main():
                 if fm.get("mode") == "decl":
                     continue
                 tagged = pid in fm.get("props", []) and n in primary
-                imported = (n, mm["file"], mm["header"], fm["fn"]) in needed_imports
+                imported = (n, mm["header"], fm.get("display", fm["fn"])) in needed_imports
                 if tagged or imported:
                     wanted.append((n, mod, mm, fm, r.fns.get((mod, fm["fn"]))))
         if ("", "prelude/lemmas") in r.fns:
@@ -189,7 +189,7 @@ def main():
             undec.append(f"unit {n}: {r.reason}")
 
     # imported contracts whose proving function does not exist in the proving unit -> undecided
-    have = {(n, mm["file"], mm["header"], fm["fn"]) for (n, mod, mm, fm, v) in wanted}
+    have = {(n, mm.get("header"), fm.get("display", fm["fn"])) for (n, mod, mm, fm, v) in wanted}
     for k in needed_imports:
         if k not in have and k[0] in us:
             undec.append(f"imported contract {k} has no proving function in unit {k[0]}")
